@@ -48,7 +48,7 @@ DELIVERABLES, all written into the directory /tmp/seed/{pid}/SEED/ (create it):
  2. demo.md — a short explanation: what the change is, why it breaks the property, exactly what is needed to make it manifest (the input / interleaving / sequence), and evidence that you demonstrated it (e.g. a small Go test or program you wrote and ran, with its output, showing the property broken with the change and fine without it). If you wrote a demo test, put it in SEED/ as well (e.g. SEED/demo_test.go.txt) with instructions on where to place it. Remove the demo test from the source tree afterwards.
  3. meta.json — {{"property": "{pid}", "summary": "...one line...", "files": ["..."], "needs": "...what specific condition makes it manifest...", "tests_run": "...which existing tests you ran and that they passed..."}}
 
-Leave your source change applied in the worktree. Do not commit. Keep your effort bounded (roughly 15 minutes). When done, reply with a brief summary of the change (3-6 lines)."""
+Leave your source change applied in the worktree. Do not commit. Never use `git stash` (the stash is shared by all worktrees of this repository and other engineers work in sibling worktrees at the same time): to test without your change use `git diff > /tmp/seed/{pid}.my.diff; git apply -R /tmp/seed/{pid}.my.diff; ...; git apply /tmp/seed/{pid}.my.diff`. Keep your effort bounded (roughly 15 minutes). When done, reply with a brief summary of the change (3-6 lines)."""
     open(f'/tmp/seed/{pid}.prompt.txt','w').write(prompt)
 print("prompts written")
 EOF
